@@ -127,7 +127,7 @@ func genSpec(r *hxlib.Rng, nonneg bool) mspec {
 		if r.Intn(3) == 0 {
 			v = big.NewInt(int64(r.Intn(300)) - 100)
 		}
-		if (nonneg || bits > 64) && v.Sign() < 0 {
+		if nonneg && v.Sign() < 0 {
 			v = new(big.Int).Neg(v)
 			if !v.IsInt64() {
 				v = big.NewInt(1 << 62)
@@ -165,9 +165,8 @@ func modeMpa(cf *hxlib.CommonFlags, o *hxlib.Out) {
 		if cr.Intn(6) == 0 {
 			zmode = "x"
 		}
-		// math/big bitwise operations on NEGATIVE big values are outside the model
-		nonneg := bitwise && (zbits > 64 || zmode == "x")
-		xs, ys := genSpec(cr, nonneg), genSpec(cr, nonneg)
+		_ = bitwise
+		xs, ys := genSpec(cr, false), genSpec(cr, false)
 		var n uint
 		if op == "lsh" || op == "rsh" {
 			n = uint([]int{0, 1, 31, 32, 33, 63, 64, 65, cr.Intn(140), cr.Intn(20)}[cr.Intn(10)])
